@@ -135,6 +135,43 @@ class _TimeShim:
         return getattr(_t, name)
 
 
+_PRISTINE = None
+
+
+def _class_level_containers():
+    """(cls, name, pristine shallow copy) for every mutable container stored on an msmart class.
+
+    A run is a fresh process: state a class accumulates during one run (a shared set, a cache dict) must not
+    leak into the next one, whether the library has such state today or a change introduces it."""
+    global _PRISTINE
+    if _PRISTINE is None:
+        import copy
+        import enum
+        import inspect
+        ns = import_msmart()
+        out = []
+        seen = set()
+        mods = [ns.lan, ns.base_device, ns.cloud, ns.discover, ns.cli, ns.frame, ns.const, ns.command, ns.acdevice]
+
+        def visit(cls):
+            if id(cls) in seen or issubclass(cls, enum.Enum):
+                return
+            seen.add(id(cls))
+            for k, v in list(vars(cls).items()):
+                if k.startswith("__"):
+                    continue
+                if isinstance(v, (set, dict, list, bytearray)):
+                    out.append((cls, k, copy.copy(v)))
+                elif inspect.isclass(v):
+                    visit(v)
+        for m in mods:
+            for v in list(vars(m).values()):
+                if inspect.isclass(v) and getattr(v, "__module__", "").startswith("msmart"):
+                    visit(v)
+        _PRISTINE = out
+    return _PRISTINE
+
+
 class Seams:
     """Context manager installing all seams for one run and restoring them afterwards."""
 
@@ -160,6 +197,9 @@ class Seams:
         self._set(ns.cloud, "token_urlsafe", lambda n=32: rnd.bytes("token_urlsafe", n).hex())
         self._set(ns.cloud.BaseCloud, "DEVICE_ID", rnd.bytes("cloud_device_id", 8).hex())
         # process-global state: a run is a fresh process
+        import copy
+        for cls, name, pristine in _class_level_containers():
+            self._set(cls, name, copy.copy(pristine))
         self._set(ns.command.Command, "_message_id", self.msg_id_start)
         D = ns.discover.Discover
         for name, val in (("_lock", None), ("_cloud", None), ("_account", None), ("_password", None),
